@@ -94,7 +94,10 @@ def predicates(full=True):
               [b('<', pos, last)], [fn('not', path(step('child', WILD)))], [b('-', last, num(1))],
               # chained predicates whose second one asks position()/last() again for a node the first one asked about
               [b('=', pos, last), b('=', pos, num(1))], [b('>', pos, num(1)), b('=', pos, num(1))], [last, b('=', pos, last)],
-              [b('>', pos, num(1)), last], [b('=', pos, last), num(1), b('=', pos, num(1))]]
+              [b('>', pos, num(1)), last], [b('=', pos, last), num(1), b('=', pos, num(1))],
+              # number-valued predicates that are neither literals nor mention position()/last(): still compared with the position
+              [b('+', num(1), num(1))], [fn('count', path(step('child', WILD)))], [fn('number', path(step('attribute', name('x'))))],
+              [fn('string-length', path(step('self', NODE)))], [b('-', fn('count', path(step('parent', NODE), step('child', WILD))), num(1))]]
     return p
 
 
